@@ -21,6 +21,7 @@ CatAll ==
        [] d = "b:poor"  -> B("poor", "C", {}, TRUE, TRUE)
        [] d = "b:east"  -> B("east", "E", {}, TRUE, FALSE)
        [] d = "b:allheat" -> B("allheat", "C", {}, TRUE, FALSE)
+       [] d = "b:summerzero" -> B("summerzero", "C", {}, TRUE, FALSE)
        [] d = "b:long"  -> B("long", "C", {"length"}, TRUE, FALSE)
        [] d = "b:neggas" -> B("neggas", "C", {"negative"}, TRUE, FALSE)
        [] d = "b:netpoor" -> B("netpoor", "C", {}, TRUE, TRUE)      \* a net-exporting meter (mean usage below zero), usage unrelated to weather
